@@ -40,6 +40,8 @@ type renderer struct {
 	byGid map[glyph.ID][]rune // usable runes per glyph, sorted
 	// plain = true: no random choices that change the token stream's shape
 	used map[string]bool
+	// lastUnderscore: the last value record was written as the single word "_"
+	lastUnderscore bool
 }
 
 func newRenderer(t *rapid.T, fs *fontSpec) *renderer {
@@ -326,12 +328,14 @@ func (r *renderer) int16(v funit.Int16, glued bool) {
 }
 
 func (r *renderer) valueRecord(v *gtab.GposValueRecord) {
+	r.lastUnderscore = false
 	if vrIsZero(v) {
 		if r.chance("explicitZero", 5) {
 			r.w(rapid.SampledFrom([]string{"x+0", "dx 0", "y-0 x+0"}).Draw(r.t, "zeroForm"))
 			r.used["explicit-zero-record"] = true
 		} else {
 			r.w("_")
+			r.lastUnderscore = true
 		}
 		return
 	}
@@ -780,8 +784,8 @@ func (r *renderer) subtable(st gtab.Subtable) {
 			for j, a := range row {
 				if j > 0 {
 					// the comma may be left out next to "_"
-					prevZero := row[j-1].Second == nil && vrIsZero(row[j-1].First)
-					if prevZero && vrIsZero(a.First) && r.chance("noMatrixComma", 3) {
+					if r.lastUnderscore && r.chance("noMatrixComma", 3) {
+						r.used["matrix-without-comma"] = true
 						r.gap()
 					} else {
 						r.sp()
@@ -896,10 +900,16 @@ func render(t *rapid.T, fs *fontSpec, gpos bool, ll gtab.LookupList) (string, []
 			}
 			r.subtable(st)
 		}
-		// lookups end at a line end or a semicolon
-		switch rapid.IntRange(0, 5).Draw(t, "lookupEnd") {
+		// lookups end at a line end or a semicolon (for cursive attachment
+		// the semicolon separates records, so only the line end remains)
+		end := rapid.IntRange(0, 5).Draw(t, "lookupEnd")
+		if gpos && l.Meta.LookupType == 3 && end == 0 {
+			end = 2
+		}
+		switch end {
 		case 0:
 			r.w(" ; ")
+			r.used["semicolon-between-lookups"] = true
 		case 1:
 			r.eol()
 			r.eol()
